@@ -158,7 +158,7 @@ func c37Settled(buf []byte) bool {
 }
 
 func c37Settle(buf []byte) bool {
-	deadline := time.Now().Add(3 * time.Second)
+	deadline := time.Now().Add(20 * time.Second)
 	for {
 		if c37Settled(buf) {
 			// twice in a row, with a scheduling point in between
@@ -338,11 +338,9 @@ func streamC37(h *H) {
 		}
 		mock.mu.Unlock()
 		h.End()
-		if !ok {
-			// leaked goroutines of this case stay blocked; make sure they cannot disturb the next case's
-			// settle detection for ever: give up on the stream (the driver reports the unsettled case)
-			return
-		}
+		// after an unsettled observation (a harness goroutine stayed runnable for 20 s: CPU starvation of
+		// the machine, never a blocked call) the case is discarded by the driver; its remaining goroutines
+		// stay blocked on their gates and do not disturb later cases
 	}
 }
 
